@@ -159,6 +159,17 @@ def run(ctx):
             specs = base[:pos] + [g] + base[pos:]
             cases.append({"nq": 2, "nb": 1, "specs": specs, "pre": []})
             circuits.append(gen.build_circuit(2, 1, specs))
+    # history: a third of the circuits are exported once, relabelled in place, and the export under test is the second one
+    for case, c in zip(cases, circuits):
+        if rng.random() < 0.35 and c.qubit_register_size >= 2:
+            export(c)
+            perm = list(range(c.qubit_register_size))
+            rng.shuffle(perm)
+            try:
+                implrun.apply_pass(c, ["map", perm])
+                case["history"] = ["export", ["map", perm], "export"]
+            except Exception:  # noqa: BLE001
+                pass
     mres = model.call_many([["export_v1", c.qubit_register_size, ser.ser_stmts(c.ir.statements)] for c in circuits])
     ctx.suite("v1", cases=len(cases))
     for case, c, mr in zip(cases, circuits, mres):
@@ -173,6 +184,11 @@ def replay(ctx, payload):
     case = payload.get("case") or (payload.get("first_disagreement") or {}).get("case")
     c = gen.build_circuit(case["nq"], case["nb"], case["specs"])
     tc.apply_pre(random.Random(0), c, case.get("pre", []))
+    for h in case.get("history", []):
+        if h == "export":
+            export(c)
+        else:
+            implrun.apply_pass(c, list(h))
     mres = model.call_many([["export_v1", c.qubit_register_size, ser.ser_stmts(c.ir.statements)]])
     check_case(ctx, case, c, mres[0])
     return {"export": export(c), "oracle_failures": ctx.oracle_failures, "fails": bool(ctx.oracle_failures)}
